@@ -19,7 +19,12 @@ _Bool nondet_bool (void); int nondet_int (void); long nondet_long (void); void *
 #include VERIF_TU
 
 /* ---- mutexes / condvars: sequential model (assumed): the lock TYPESTATE is have_connection_lock ---- */
+#ifdef VERIF_ENV_ON_LOCK
+void verif_env_step (void);      /* other threads ran while the lock was not held */
+void _dbus_rmutex_lock (DBusRMutex *m) { verif_env_step (); }
+#else
 void _dbus_rmutex_lock (DBusRMutex *m) { }
+#endif
 void _dbus_rmutex_unlock (DBusRMutex *m) { }
 void _dbus_cmutex_lock (DBusCMutex *m) { }
 void _dbus_cmutex_unlock (DBusCMutex *m) { }
